@@ -78,7 +78,7 @@ type c07Witness struct {
 func init() {
 	core.Register(&core.Check{
 		ID:   "C07",
-		Rule: "exhaustive over: operation security in 11 shapes (absent, [], [{}], single, conjunction, alternatives, undeclared scheme, mixes) x document security in 6 shapes x 4 callback outcome assignments (A,B ok/fail) x parameter layout (none / operation overrides path-level query q with another type / operation declares q in another location) x renderings good/bad/absent of path-level q (query), path-level X-H (header, required), operation r (query, required) x body good/bad/absent x body required or not x 7 option sets (default, MultiError, ExcludeRequestBody, ExcludeRequestQueryParams, both excludes+MultiError, body-reading callback, no AuthenticationFunc). The model is boolean: each part has an independently controlled rendering. Then PRNG-drawn operations (1,500 quick / 150,000 thorough, 8 requests each): up to 3 requirements over 4 declared schemes (apiKey header/query, http bearer, oauth2 with scopes) and an undeclared one at document and operation level, integer parameters p,q in query/header/cookie and the path variable at path level, pattern-typed ones at operation level (overrides by (in,name), decoys in other locations), renderings 5 / x / XX / absent per parameter, body good/bad/absent, independent callback outcome per scheme, random combinations of MultiError, ExcludeRequestBody, ExcludeRequestQueryParams, body-reading callback, no AuthenticationFunc; same boolean model. Distinct = full case tuple; non-trivial = the model value depends on at least two parts (at least two of security/params/body are constrained).",
+		Rule: "exhaustive over: operation security in 11 shapes (absent, [], [{}], single, conjunction, alternatives, undeclared scheme, mixes) x document security in 6 shapes x 4 callback outcome assignments (A,B ok/fail) x parameter layout (none / operation overrides path-level query q with another type / operation declares q in another location) x renderings good/bad/absent of path-level q (query), path-level X-H (header, required), operation r (query, required) x body good/bad/absent x body required or not x 9 option sets (default, MultiError, ExcludeRequestBody, ExcludeRequestQueryParams, both excludes+MultiError, body-reading callback, no AuthenticationFunc, body streamed from a reader of unknown length with ContentLength 0 and -1). The model is boolean: each part has an independently controlled rendering. Then PRNG-drawn operations (1,500 quick / 150,000 thorough, 8 requests each): up to 3 requirements over 4 declared schemes (apiKey header/query, http bearer, oauth2 with scopes) and an undeclared one at document and operation level, integer parameters p,q in query/header/cookie and the path variable at path level, pattern-typed ones at operation level (overrides by (in,name), decoys in other locations), renderings 5 / x / XX / absent per parameter, body good/bad/absent, independent callback outcome per scheme, random combinations of MultiError, ExcludeRequestBody, ExcludeRequestQueryParams, body-reading callback, no AuthenticationFunc; same boolean model. Distinct = full case tuple; non-trivial = the model value depends on at least two parts (at least two of security/params/body are constrained).",
 		Assumptions: []string{
 			"reference: requirements = operation's if declared else document's; empty list or empty requirement passes; a requirement passes iff all its schemes are declared and accepted; effective parameters = operation's + path-level ones not overridden by (in,name)",
 			"in MultiError mode each failing part yields one member identifiable as security / parameter(in,name) / body",
@@ -193,6 +193,25 @@ type c07opt struct {
 	o        openapi3filter.Options
 	readBody bool
 	noFunc   bool
+	opaque   int // 0: body from a bytes.Reader (length known); 1: opaque reader, ContentLength 0 as http.NewRequest leaves it; 2: opaque reader, ContentLength -1
+}
+
+// onlyReader hides every method of a reader but Read, as a body streamed from elsewhere does.
+type onlyReader struct{ r io.Reader }
+
+func (o onlyReader) Read(p []byte) (int, error) { return o.r.Read(p) }
+
+// opaqueBody replaces the body of req by a stream of unknown length.
+func opaqueBody(req *http.Request, body []byte, mode int) {
+	if req == nil || body == nil || mode == 0 {
+		return
+	}
+	req.Body = io.NopCloser(onlyReader{strings.NewReader(string(body))})
+	req.GetBody = nil
+	req.ContentLength = 0
+	if mode == 2 {
+		req.ContentLength = -1
+	}
 }
 
 func c07Group(c *core.Ctx, ds, os c07sec, lay c07layout, bodyReq bool) {
@@ -218,6 +237,8 @@ func c07Group(c *core.Ctx, ds, os c07sec, lay c07layout, bodyReq bool) {
 		{name: "ExcludeBoth+MultiError", o: openapi3filter.Options{ExcludeRequestBody: true, ExcludeRequestQueryParams: true, MultiError: true}},
 		{name: "MultiError+callback-reads-body", o: openapi3filter.Options{MultiError: true}, readBody: true},
 		{name: "MultiError+no-AuthenticationFunc", o: openapi3filter.Options{MultiError: true}, noFunc: true},
+		{name: "streamed-body", opaque: 1},
+		{name: "MultiError+streamed-body(-1)", o: openapi3filter.Options{MultiError: true}, opaque: 2},
 	}
 	renders := []string{"good", "bad", "absent"}
 	for authMask := 0; authMask < 4; authMask++ {
@@ -276,6 +297,7 @@ func c07Case(c *core.Ctx, router routers.Router, ds, os c07sec, lay c07layout, b
 		target += "?" + strings.Join(pairs, "&")
 	}
 	req := newReq("POST", target, hdr, bodyBytes)
+	opaqueBody(req, bodyBytes, op.opaque)
 	desc := fmt.Sprintf("doc=%s op=%s layout=%s bodyRequired=%v auth=A:%v,B:%v q=%s h=%s r=%s body=%s options=%s", ds.name, os.name, lay.name, bodyReq, ok["A"], ok["B"], q, h, r, body, op.name)
 	c.BeginLazy(func() string { return desc })
 
